@@ -64,6 +64,16 @@ func c13Slots() []c13Program {
 		return "T | join (R | join kind=leftouter (C | extend z = " + e + ") on k) on k | count"
 	})
 	add("after-join", false, false, func(e string) string { return "T | join (R) on k | where " + e })
+	// every operator slot followed and preceded by every kind of operator (a later operator must not hide the check)
+	followers := []string{"take 1", "top 1 by b", "sort by b", "count", "where b", "project b", "extend z = 1", "summarize count() by b", "as Q", "render chart", "join (R) on k"}
+	for _, f := range followers {
+		f := f
+		add("sort-then-"+f, false, false, func(e string) string { return "T | sort by " + e + " | " + f })
+		add("top-then-"+f, false, false, func(e string) string { return "T | top 2 by " + e + " | " + f })
+		add("where-then-"+f, false, false, func(e string) string { return "T | where " + e + " | " + f })
+		add("extend-then-"+f, false, false, func(e string) string { return "T | extend x = " + e + " | " + f })
+		add(f+"-then-sort", false, false, func(e string) string { return "T | " + f + " | sort by " + e })
+	}
 	add("let-value", false, true, func(e string) string { return "let v = " + e + "; T | take 5" })
 	add("let-value-second", false, true, func(e string) string { return "let u = 1; let v = u + " + e + "; T | where a > v" })
 	return out
@@ -124,7 +134,7 @@ func callText(fn string, n int) string {
 
 func c13Main(r *run.Runner) {
 	r.Rule = "(a) SQL-xor-error contract on every lexeme sequence of the token sweeps, every corruption of the grammar corpus and every planted program; " +
-		"(b) for every expression slot (15 positions incl. nested join right-hand sides and let values) x every wrapper (13 nesting contexts) x every rule (built-in arities 0..4, $left/$right outside on, open identifiers in let values, unknown join kind, non-integer row counts, no / several tabular statements) the program with exactly one planted violation must fail and its unplanted twin must compile; " +
+		"(b) for every expression slot (70 positions: every expression-carrying operator, alone and followed/preceded by every other operator, nested join right-hand sides, let values) x every wrapper (13 nesting contexts) x every rule (built-in arities 0..4, $left/$right outside on, open identifiers in let values, unknown join kind, non-integer row counts, no / several tabular statements) the program with exactly one planted violation must fail and its unplanted twin must compile; " +
 		"every grammar-corpus program that breaks no rule must compile; non-trivial = Compile was reached with a program that parses; distinct by construction"
 	r.Assume = []string{"rule list is the one in the property statement", "$left/$right as table or alias names and render property values are not expression references"}
 	b1 := tokenSweeps(r, 3, 5, c13Either)
